@@ -184,10 +184,77 @@ fn frame_one(h: &str, off: usize) {
 }
 fn short(o: &Out) -> String { let s = format!("{:?}", o); if s.len() > 200 { s[..200].to_string() } else { s } }
 
+/// connection level (C08): write frames with the real Connection, deliver the bytes in chunks of a given
+/// size through an in-memory pipe, read them back with the real Connection.
+fn conn_search() {
+    use bitcask::net::connection::Connection;
+    use tokio::io::AsyncWriteExt;
+    let rt = tokio::runtime::Builder::new_current_thread().enable_all().build().unwrap();
+    let b = |s: &[u8]| Frame::BulkString(bytes::Bytes::copy_from_slice(s));
+    let frames = || vec![
+        Frame::SimpleString("OK".into()), Frame::Error("ERR something".into()), Frame::Integer(0), Frame::Integer(-42),
+        Frame::Integer(i64::MAX), Frame::Integer(i64::MIN), b(b""), b(b"hello"), b(b"\r\n\0\r\n"), b(&[9u8; 70]), Frame::Null,
+        Frame::Array(vec![]), Frame::Array(vec![b(b"SET"), b(b"k"), b(b"v\r\nv")]), Frame::Array(vec![Frame::Integer(1), Frame::Null, Frame::SimpleString("x".into())]),
+    ];
+    rt.block_on(async {
+        // encode with the real writer
+        let mut wire = std::io::Cursor::new(Vec::new());
+        let mut encs: Vec<Vec<u8>> = Vec::new();
+        {
+            let mut w = Connection::new(&mut wire);
+            let mut last = 0usize;
+            for f in frames() {
+                w.write_frame(&f).await.unwrap();
+                drop(w);
+                let cur = wire.get_ref().len();
+                encs.push(wire.get_ref()[last..cur].to_vec());
+                last = cur;
+                w = Connection::new(&mut wire);
+                // Connection::new over &mut Cursor appends at the cursor position
+            }
+        }
+        let all: Vec<u8> = wire.get_ref().clone();
+        // each encoding parses back (writer vs independent encoder)
+        for (f, e) in frames().into_iter().zip(encs.iter()) {
+            let mut x = Vec::new();
+            enc(&f, &mut x);
+            if &x != e { report("writer-encoding", e, 0, format!("wrote {:?}", String::from_utf8_lossy(e)), &format!("{:?}", String::from_utf8_lossy(&x))); }
+        }
+        for chunk in [1usize, 2, 3, 5, 7, 64, 100000] {
+            for cut in [all.len(), all.len() - 1, all.len() - 3, 1] {
+                let data = all[..cut].to_vec();
+                let (mut tx, rx) = tokio::io::duplex(1 << 20);
+                let d2 = data.clone();
+                let feeder = tokio::spawn(async move {
+                    for c in d2.chunks(chunk) { tx.write_all(c).await.unwrap(); tx.flush().await.unwrap(); tokio::task::yield_now().await; }
+                    drop(tx);
+                });
+                let mut r = Connection::new(rx);
+                let mut got = Vec::new();
+                let end = loop {
+                    match r.read_frame().await { Ok(Some(f)) => got.push(f), Ok(None) => break Ok(()), Err(e) => break Err(format!("{:?}", e)) }
+                };
+                feeder.await.unwrap();
+                let want = frames();
+                let complete = cut == all.len();
+                let nfull = { let mut n = 0; let mut acc = 0; for e in &encs { if acc + e.len() <= cut { acc += e.len(); n += 1; } else { break; } } n };
+                if got.len() != nfull || got.iter().zip(want.iter()).any(|(a, b)| a != b) {
+                    report("chunked-read", &data, 0, format!("chunk size {}: decoded {} frames: {:?}", chunk, got.len(), got.iter().take(3).collect::<Vec<_>>()), &format!("the first {} written frames", nfull));
+                }
+                let at_boundary = { let mut acc = 0; let mut ok = false; for e in &encs { acc += e.len(); if acc == cut { ok = true; } } ok };
+                if (complete || at_boundary) && end.is_err() { report("clean-end", &data, 0, format!("chunk size {}: {:?}", chunk, end), "Ok(None) at end of stream"); }
+                if !complete && !at_boundary && end.is_ok() { report("truncated-stream", &data, 0, format!("chunk size {}: clean end after {} frames", chunk, got.len()), "an error: the stream ended inside a frame"); }
+            }
+        }
+    });
+    println!("{{\"found\": false, \"searched\": \"14 frames written by the real Connection and read back through a pipe in chunks of 1,2,3,5,7,64 bytes and all at once; stream complete and cut at 3 places\"}}");
+}
+
 fn main() {
     let a: Vec<String> = std::env::args().collect();
     match a.get(1).map(|s| s.as_str()) {
         Some("frame-search") => frame_search(),
+        Some("conn-search") => conn_search(),
         Some("frame-one") => frame_one(&a[2], a.get(3).map(|s| s.parse().unwrap()).unwrap_or(0)),
         Some("frame-deep") => {
             // deep nesting in this (child) process: an abort here is the observation
